@@ -22,14 +22,12 @@ absent or any mode, on BOTH code paths (`version = 1` through `ttv`; the default
 reshape·dot loop); the vector needs the length `n` only when a mode is multiplied.  The result is accepted, its
 entry at every kept coordinate `i` is `Σ_j X[i ++ j] ∏_l x[j_l]`, its shape is the kept extents and its kind the one
 that belongs to `skip_dim` (0 scalar — nothing kept, 1 one-dimensional array, 2 two-dimensional array, 3 tensor),
-with the ONE deviation of the code as it is: the default version / `version = 2` hands the length-1 vector of an
-extent-1 tensor (`skip_dim = 0`, `n = 1`) back as a scalar (known finding K02-ttsv-extent1-scalar). -/
+for every extent (after the fix 0527d3b also for extent 1). -/
 theorem C02_ttsv_dense [CommSemiring α] (T : Dense α) (hT : T.WF) (d n : Nat) (hd : 1 ≤ d)
     (hshape : T.shape = List.replicate d n) (x : List α) (skip : Option Int) (hskip : ML.TtsvSkipOk d skip)
     (hx : ML.ttsvKeep skip < d → x.length = n) (ver : ML.TtsvVer) (hver : ver ≠ .other) :
-    ∃ r, T.ttsv x skip ver = .ok r ∧
-      (if ver ≠ .v1 ∧ ML.ttsvKeep skip = 1 ∧ n = 1 then r.shape = [] ∧ r.kind = 0
-       else r.shape = List.replicate (ML.ttsvKeep skip) n ∧ r.kind = min (ML.ttsvKeep skip) 3) ∧
+    ∃ r, T.ttsv x skip ver = .ok r ∧ r.shape = List.replicate (ML.ttsvKeep skip) n ∧
+      r.kind = min (ML.ttsvKeep skip) 3 ∧
       ∀ i, InBounds (List.replicate (ML.ttsvKeep skip) n) i → r.get i = Spec.ttsv T.den x (ML.ttsvKeep skip) i :=
   ML.ttsv_cubical_spec T hT d n hd hshape x skip hskip hx ver hver
 
@@ -44,17 +42,20 @@ theorem C02_ttsv_v1_dense [CommSemiring α] (T : Dense α) (hT : T.WF) (x : List
       ∀ i, InBounds (Spec.ttsvShape T.shape (ML.ttsvKeep skip)) i →
         r.get i = Spec.ttsv T.den x (ML.ttsvKeep skip) i := ML.ttsv_v1_spec T hT x skip hskip hx
 
-/-- The two code paths agree on every cubical tensor: no `version` is `version = 2`; `version = 1` returns
-literally the same result as `version = 2` — except for an extent-1 tensor with `skip_dim = 0`, where
-`version = 1` returns the vector `[v]` and the default version the scalar `v` (the same value). -/
+/-- The two code paths agree on every cubical tensor: no `version` is `version = 2`, and `version = 1` returns
+literally the same result as `version = 2` (both run the `ttv` loop on the tensor's own data). -/
 theorem C02_ttsv_versions_agree [CommSemiring α] (T : Dense α) (hT : T.WF) (d n : Nat) (hd : 1 ≤ d)
     (hshape : T.shape = List.replicate d n) (x : List α) (skip : Option Int) (hskip : ML.TtsvSkipOk d skip)
     (hx : ML.ttsvKeep skip < d → x.length = n) :
-    T.ttsv x skip .default = T.ttsv x skip .v2 ∧
-    (¬ (ML.ttsvKeep skip = 1 ∧ n = 1) → T.ttsv x skip .v1 = T.ttsv x skip .v2) ∧
-    (ML.ttsvKeep skip = 1 ∧ n = 1 →
-      ∃ v, T.ttsv x skip .v1 = .ok (.vec [v]) ∧ T.ttsv x skip .v2 = .ok (.scalar v)) :=
+    T.ttsv x skip .default = T.ttsv x skip .v2 ∧ T.ttsv x skip .v1 = T.ttsv x skip .v2 :=
   ML.ttsv_versions_agree T hT d n hd hshape x skip hskip hx
+
+/-- The behaviour before the fix 0527d3b, on an explicit copy of the old tail of the default version
+(`if len(y) == 1: return y.item()`): for the `1 × 1` tensor `[5]`, vector `[2]`, `skip_dim = 0` the loop leaves the
+length-1 vector `[10]`, which the old tail handed back as the scalar `10`; the repaired code returns the vector. -/
+theorem C02_ttsv_extent1_pinned_counterexample :
+    ML.ttsvTailPinned (Dense.ttsvLoop ([2] : List Int) 1 1 1 [5]) = .scalar 10 ∧
+    (⟨[1, 1], [5]⟩ : Dense Int).ttsv [2] (some 0) .default = .ok (.vec [10]) := by decide +kernel
 
 /-- What `ttsv` refuses: a `skip_dim` that is negative or not below the order (every version); a `version` other
 than absent / 1 / 2; on the default path a tensor of order 0, a tensor that is not cubical, a vector whose length
@@ -236,14 +237,12 @@ example : ML.TtsvSkipOk 3 (some 0) ∧ ML.ttsvKeep (some 0) = 1 ∧ ¬ ML.TtsvSk
 /-- The hypotheses of `C02_ttsv_versions_agree` hold for this input, so `version = 1` returns the same vector. -/
 example : (⟨[2, 2, 2], [1, -2, 3, 0, 5, 6, -7, 8]⟩ : Dense Int).ttsv [1, -1] (some 0) .v1 = .ok (.vec [-14, 0]) := by
   rw [(C02_ttsv_versions_agree (⟨[2, 2, 2], [1, -2, 3, 0, 5, 6, -7, 8]⟩ : Dense Int) rfl 3 2 (by decide) rfl [1, -1] (some 0)
-    (by decide) (fun _ => rfl)).2.1 (by decide)]
+    (by decide) (fun _ => rfl)).2]
   decide +kernel
-/-- The deviation: an extent-1 tensor, `skip_dim = 0`. -/
-example : (⟨[1, 1], [5]⟩ : Dense Int).ttsv [2] (some 0) .default = .ok (.scalar 10) := by decide +kernel
-example : ∃ v, (⟨[1, 1], [5]⟩ : Dense Int).ttsv [2] (some 0) .v1 = .ok (.vec [v]) ∧
-    (⟨[1, 1], [5]⟩ : Dense Int).ttsv [2] (some 0) .v2 = .ok (.scalar v) :=
-  (C02_ttsv_versions_agree (⟨[1, 1], [5]⟩ : Dense Int) rfl 2 1 (by decide) rfl [2] (some 0) (by decide) (fun _ => rfl)).2.2
-    ⟨rfl, rfl⟩
+/-- An extent-1 tensor, `skip_dim = 0`: a vector of length 1 on both code paths. -/
+example : (⟨[1, 1], [5]⟩ : Dense Int).ttsv [2] (some 0) .v1 = .ok (.vec [10]) := by
+  rw [(C02_ttsv_versions_agree (⟨[1, 1], [5]⟩ : Dense Int) rfl 2 1 (by decide) rfl [2] (some 0) (by decide) (fun _ => rfl)).2]
+  decide +kernel
 /-- The default version refuses a non-cubical tensor (`version = 1` accepts it: `C02_ttsv_v1_dense`). -/
 example : (⟨[1, 2], [3, 4]⟩ : Dense Int).ttsv [1, 1] (some 0) .default = .error .reject := by decide +kernel
 example : ∃ r, (⟨[1, 2], [3, 4]⟩ : Dense Int).ttsv [1, 1] (some 0) .v1 = .ok r ∧ r.kind = 1 := by
